@@ -17,6 +17,22 @@ CHECKS = {
          "DESIGN.md §3 C03",
          "Held on every executed response: for 11 kinds of genuinely signed but must-reject documents, ~60 arrangements of an unsigned accept-decoy (exact duplicates, every case / Unicode-fold variant of the key, escaped key, duplicate signature keys, evil-first superset) never turn the rejection into an acceptance; every sampled bit flip of the signed member, re-encodings, wrong-message signatures, ~15 foreign / wrong-role / wrong-issuer signer chains, wrong id/version, empty levels, missing members and malformed headers are rejected; all other mutants satisfy 'accepted => an exact-key member verifies under a TCB-signing certificate chaining to the pool and its own values pass'.",
          "Trusts ECDSA, encoding/json validity checking, and the reference top-level member scanner."),
+ "C04": ("exploration", "runtime monitoring: small-scope abstraction of the TCB algorithm enumerated through the real verification path with freshly signed TCB Info, judged by a reference evaluator written from the statement",
+         "DESIGN.md §3 C04",
+         "Held on every executed configuration: the 1-level abstract space (SGX x PCE x TDX comparisons reduced to pass / fail-at-boundary-index x 7 statuses) is enumerated completely for TEE_TCB_SVN[1] in {0,n} with absent / omitted / wrong-id / 1-level module identities; the 2-level space is sampled (quick) or enumerated (thorough); identity-field mismatches and mask cases; random 3-6 level lists. Library accepts => reference evaluator accepts; 'no level matches' => the reporting API returns an error.",
+         "Everything except the TCB Info content is honest; reference evaluator and generator share no code with the library. TEE_TCB_SVN[1] limited to 0..9 (id format)."),
+ "C05": ("fault_enumeration", "runtime monitoring: exhaustive fault enumeration over revoked-serial sets x targets x CRL placement x CRL signer x endpoint outcome x option combinations, judged by independent CRL parsing + raw ECDSA",
+         "DESIGN.md §3 C05",
+         "Held on the whole grid: each of the four governed certificates (leaf, intermediate, TCB-Info signer, a distinct QE-Identity signer) listed alone / among 1000 / twice in the governing CRL is rejected, near-miss serials and listings in the non-governing CRL are not confused with revocation, CRLs signed by the other CA / a foreign key under the same name / a look-alike CA are rejected, every endpoint failure mode is rejected (fail closed), 1-3 distribution points with each failing prefix, and revocation without collateral always fails.",
+         "Reference reads 'obtained' existentially over everything the endpoint served, so it can only be weaker than the library."),
+ "C06": ("fault_enumeration", "runtime monitoring: boundary-grid fault enumeration over 14 independently dated artefact roles x 5 time-set entries, judged by must-accept/must-reject expectations and a reference expiry predicate",
+         "DESIGN.md §3 C06",
+         "Held on the whole grid: for each of 14 roles (five differently dated copies of one root, own copy of the intermediate in the PCK-CRL header, distinct signers) {1 s before, at, 1 s after} expiry at each governing time entry, the same around notBefore for path-validated certificates, 'only this entry past the expiry' for all 5 entries (reject iff the entry governs the role), 'all other entries past' (accept), monotonicity up to +365 d, and random window/time assignments judged by the reference.",
+         "Zero time.Time entries excluded. Trusts crypto/x509 validity enforcement on validated paths."),
+ "C07": ("exploration", "runtime monitoring: QE report edited and re-signed with the PCK key against freshly signed QE identities; bit-exhaustive mask tests and exhaustive 1-2 level lists judged by a reference matcher",
+         "DESIGN.md §3 C07",
+         "Held on every executed case: each of the 160 MISCSELECT/ATTRIBUTES bits flipped in the report is rejected when the mask covers it and accepted when it does not, identity value bits outside the mask never match, every MRSIGNER bit, ISVPRODID boundary values, wrong lengths / bad hex rejected, all 21 + 441 one- and two-level lists over {below, equal, above} x 7 statuses agree with the reference, byte-order traps for ISVSVN.",
+         "Only the QE-related content varies; the rest of each world is honest and was accepted."),
  "C09": ("exploration", "runtime monitoring: differential comparison of the library parser/serialiser with an independent reference layout parser/serialiser on hostile byte strings and generated messages",
          "DESIGN.md §3 C09",
          "Held on every executed input: same acceptance set as the reference v4 layout parser, every parsed field equal to the reference slice (so a self-consistent offset swap in parser and serialiser is visible), serialise(parse(b)) == b byte for byte, exported part serialisers equal the corresponding input slices, and generated well-formed messages serialise to the reference bytes and parse back proto.Equal. Exhaustive over truncation lengths and size-field boundary grids of the sampled quotes only.",
